@@ -5,6 +5,7 @@ import (
 	"github.com/metrico/qryn/reader/prof/parser"
 	shared2 "github.com/metrico/qryn/reader/prof/shared"
 	v1 "github.com/metrico/qryn/reader/prof/types/v1"
+	"strconv"
 )
 
 func PlanLabelNames(scripts []*parser.Script) (shared.SQLRequestPlanner, error) {
@@ -114,11 +115,11 @@ func PlanAnalyzeQuery(script *parser.Script) (shared.SQLRequestPlanner, error) {
 
 func populateTypeId(script *parser.Script, tId *shared2.TypeId) {
 	script.Selectors = append(script.Selectors, []parser.Selector{
-		{"__name__", "=", parser.Str{"`" + tId.Tp + "`"}},
-		{"__period_type__", "=", parser.Str{"`" + tId.PeriodType + "`"}},
-		{"__period_unit__", "=", parser.Str{"`" + tId.PeriodUnit + "`"}},
-		{"__sample_type__", "=", parser.Str{"`" + tId.SampleType + "`"}},
-		{"__sample_unit__", "=", parser.Str{"`" + tId.SampleUnit + "`"}},
+		{"__name__", "=", parser.Str{strconv.Quote(tId.Tp)}},
+		{"__period_type__", "=", parser.Str{strconv.Quote(tId.PeriodType)}},
+		{"__period_unit__", "=", parser.Str{strconv.Quote(tId.PeriodUnit)}},
+		{"__sample_type__", "=", parser.Str{strconv.Quote(tId.SampleType)}},
+		{"__sample_unit__", "=", parser.Str{strconv.Quote(tId.SampleUnit)}},
 	}...)
 }
 
